@@ -609,3 +609,52 @@ func c15PushWithRefs(c *Ctx, r *R) {
 	}, true)
 	mustPass(c, r, "push-only-if-ahead", fn, isInstr(pk.Instr), eng.NewCut().AddEdges(la...), "the push happens only when the local log is strictly ahead of the remote log", "sync can push although the local log is not ahead of the remote log")
 }
+
+func init() {
+	reg(&eng.Rule{ID: "C15.tips-annotations", Prop: "C15", Floor: 2,
+		Doc: "getLatestRefTipsFromRSLEntries (which decides the state a reference is synchronised to) records EVERY annotation under EVERY entry id it names: in the loop over an annotation's RSLEntryIDs the next id is reached only after the annotation was appended to that id's list (an annotation dropped here un-revokes the entries it skips), and no id is passed over.",
+		Run: c15TipsAnnotations})
+}
+
+func c15TipsAnnotations(c *Ctx, r *R) {
+	fn := r.Fn("experimental/gittuf.getLatestRefTipsFromRSLEntries")
+	if fn == nil {
+		return
+	}
+	heads := eng.LoopsOver(fn, eng.PField("RSLEntryIDs", nil))
+	if len(heads) != 1 {
+		r.Bad("loop", fn.Pos(), "expected one loop over an annotation's RSLEntryIDs, found %d", len(heads))
+		return
+	}
+	r.Site(1)
+	h := heads[0]
+	scanExhaustive(c, r, "all-ids", h, nil, "ids named by an annotation")
+	var upd []ssa.Instruction
+	for _, b := range fn.Blocks {
+		for _, in := range b.Instrs {
+			mu, ok := in.(*ssa.MapUpdate)
+			if !ok || !strings.HasSuffix(mu.Map.Type().String(), "[]*"+eng.Module+"/pkg/rsl.AnnotationEntry") {
+				continue
+			}
+			if k, _, isCall := eng.RootCall(eng.Strip(mu.Value)); isCall && k.Name() == "builtin.append" {
+				// the appended element is the annotation whose ids are being walked
+				els := eng.VariadicElems(k.Instr.Common().Args[1])
+				if len(els) == 1 {
+					upd = append(upd, in)
+				}
+			}
+		}
+	}
+	hd := h.Instrs[len(h.Instrs)-1]
+	loop := eng.NaturalLoop(h)
+	ok := len(upd) > 0
+	for _, s := range h.Succs {
+		if !loop[s] {
+			continue
+		}
+		if p := eng.FindPath(s, 0, func(in ssa.Instruction) bool { return in == hd }, eng.NewCut().AddInstrs(upd...)); p != nil {
+			ok = false
+		}
+	}
+	r.Check(ok, "every-annotation-recorded", fn.Pos(), "each id named by an annotation gets that annotation appended to its list", "an annotation can be passed over for an id it names (only recorded when it is the first for that id, or not at all): a later revocation of the same entry is ignored when reference tips are computed")
+}
